@@ -268,7 +268,22 @@ def r_arch_guards_dominate(model, rep):
                     and T.root_of(ev.value[1][1]) == S and ev.value[1][1] != S:
                 muts.append(ev)
         if not muts:
-            raise AnalysisError("R-ARCH-GUARD: no mutation of the table found in %s" % q)
+            # the insertion was moved into a helper method: the call of the helper is the mutation event
+            writers = set()
+            cls = f.cls
+            for name, fn in cls.methods.items():
+                for node in ast.walk(fn):
+                    if isinstance(node, ast.Attribute) and node.attr == table_attr and isinstance(node.ctx, ast.Load):
+                        # any method that reaches self.<table>.setdefault/...[...] = counts
+                        pass
+                src = ast.unparse(fn)
+                if ("self.%s.setdefault" % table_attr) in src or ("self.%s[" % table_attr) in src:
+                    writers.add(name)
+            muts = [ev for ev in cx.events if ev.kind == "call" and ev.value[1][0] == "attr" and ev.value[1][1] == S and ev.value[1][2] in writers]
+        if not muts:
+            rep.ob("R-ARCH-GUARD", "%s:guards-dominate-insertion" % q, False, site=cx.site(f.node),
+                   msg="%s no longer inserts into self.%s (directly or through a method of the class)" % (q, table_attr))
+            continue
         bad = []
         for ev in muts:
             known = any(g[1] is False and g[0][0] == "cmp" and g[0][1] == ("not in",) and g[0][2][0] == arch for g in ev.guards) or \
@@ -304,19 +319,43 @@ def check_c09(model, rep, tier):
     r_single_writer(model, rep, "images.Images", "images", {"add", "__delitem__", "__init__"})
     from .roundtrip import r_no_hidden_state
     r_no_hidden_state(model, rep, ["images.Images"])
+    r_identity_hash(model, rep)
     r_load_via_add(model, rep)
     r_gate(model, rep, tier, only=["images.Images.add", "images.Images.deserialize"])
+    # the gate reads header.version_tuple: it must be computed from the current version string on every access
+    from .validation import r_version_tuple_fresh
+    r_version_tuple_fresh(model, rep)
 
 
 # ---------------------------------------------------------------------------------------------------------
 # C10
 # ---------------------------------------------------------------------------------------------------------
+def r_arch_table(model, rep, rule_id="R-ARCH-GUARD"):
+    from .oracle_tables import DOC_RPM_ARCHES
+    arches = model.const("common", "RPM_ARCHES")
+    missing = [a for a in DOC_RPM_ARCHES if a not in arches]
+    rep.ob(rule_id, "RPM_ARCHES:documented-architectures", not missing, site="productmd/common.py",
+           msg="" if not missing else "documented architecture name(s) %s are no longer in RPM_ARCHES (a valid architecture is refused)" % missing)
+    glued = [a for a in arches if a not in DOC_RPM_ARCHES and any(a == x + y for x in DOC_RPM_ARCHES for y in DOC_RPM_ARCHES)]
+    rep.ob(rule_id, "RPM_ARCHES:no-concatenated-entries", not glued, site="productmd/common.py",
+           msg="" if not glued else "entries %s are two architecture names run together (missing comma)" % glued)
+
+
+def r_identity_hash(model, rep):
+    """Image objects live in sets and are shared between cells: they must keep identity-based equality and hashing"""
+    cls = model.cls("images.Image")
+    bad = [n for n in ("__eq__", "__hash__", "__ne__", "__lt__", "__cmp__") if cls.lookup(n) is not None]
+    rep.ob("R-IDENTITY-HASH", "images.Image", not bad, site=cls.module.site(cls.node),
+           msg="" if not bad else "images.Image defines %s: cells are sets, so value-equal but distinct images collapse into one" % bad)
+
+
 def r_arch_guard(model, rep):
     from .builders import REFUSALS, refusal, _fref
     arches = model.const("common", "RPM_ARCHES")
     ok = "src" in arches and "nosrc" in arches and len(arches) >= 50
     rep.ob("R-ARCH-GUARD", "RPM_ARCHES:contains-src-nosrc", ok, site="productmd/common.py",
            msg="" if ok else "RPM_ARCHES no longer contains 'src'/'nosrc' (they are legal *package* arches; the tree-arch guard relies on the second test)")
+    r_arch_table(model, rep)
     for q, label, kind, param, extra in REFUSALS:
         if q not in ("images.Images.add", "rpms.Rpms.add") or param != "arch":
             continue
@@ -427,4 +466,5 @@ def check_c10(model, rep, tier):
     r_single_writer(model, rep, "rpms.Rpms", "rpms", {"add", "__delitem__", "__init__", "deserialize_1_0", "deserialize_0_3"})
     r_src_route(model, rep)
     r_load_via_add(model, rep)
+    r_identity_hash(model, rep)
     r_gate(model, rep, tier, only=["images.Images.deserialize", "rpms.Rpms.deserialize"])
